@@ -229,6 +229,13 @@ def run(pid, tier):
         # ---- 4. direction B: schedules chosen on the code side
         for i in range(nr):
             runs.append(P.random_run(rng, "r%d" % i, weights=WEIGHTS.get(pid)))
+        # a handle configured with the other hash function (fixed scenarios next to the random ones): it gets its handle while the
+        # directory is empty, a correctly configured handle commits first; preempted after k of its filesystem calls
+        for k in (0, 3, 6, 9, 12, 20, 60):
+            tg = P.TxnGen(random.Random(5 + k))
+            runs.append({"id": "alien-%d" % k, "hash": "sha1" if k % 2 == 0 else "s256", "nh": 3, "init": [], "preopen": True,
+                         "progs": {"1": [tg.add(), tg.add()], "2": [tg.add(), {"op": "compactall"}], "3": [tg.add(), tg.add(), tg.add(), {"op": "reload"}, tg.add()]},
+                         "auto": {}, "alien": {"3": True}, "sched": [1] * 14 + [3] * k + [1] * 30 + [3] * 300, "tail": "seq", "seed": k})
         pre, preempt_total = preempt_runs(drv, sc, rng, 900 if tier == "quick" else 10 ** 6, pid, tier == "thorough")
         runs += pre
         crash_total, crash_complete = 0, None
